@@ -46,10 +46,14 @@ def lr1_lalr(rules, start):
             q2 = closure({(ri, d+1, la) for ri, d, la in q if d < len(R[ri][1]) and R[ri][1][d] == s})
             if q2 not in states: states.add(q2); work.append(q2)
     merged = {}
+    item_las = {}
     for q in states:
         core = frozenset((ri, d) for ri, d, la in q)
         m = merged.setdefault(core, {})
+        il = item_las.setdefault(core, {})
         for ri, d, la in q:
+            il.setdefault((ri, d), set()).add(la)
             if d == len(R[ri][1]) and ri != root: m.setdefault(ri, set()).add(la)
+    lr1_lalr.item_las = item_las       # lookaheads of *every* item per merged state (annotation for the completeness certificate)
     return merged, len(states)
 
